@@ -6,7 +6,8 @@ const C = require('../grammar/configs')
 const { isObj } = require('../oracles/erase')
 
 const DIRECTIVES = ["'use strict'", '"use strict"', "'foo'", "'use\\x20strict'"]
-const LOOKALIKES = ['', "('use strict');", '`use strict`;', "'use strict' + '';"]
+// (an empty statement, a block or a label in front ends the prologue: the string after it is an ordinary statement)
+const LOOKALIKES = ['', "('use strict');", '`use strict`;', "'use strict' + '';", "; 'use strict';", ";; 'use strict'; ;", "{ } 'use strict';", "'use strict'\n.length;", "'use strict'\n+ 1;"]
 const BODIES = { none: 'x = 1;', hook: 'x = a + b;', temps: 'x = a + b.c() + g();' }
 const PROBE = "[(function () { return this === undefined })(), (() => { try { undeclared_probe_var = 1; return 'sloppy' } catch (e) { return e.name } })()]"
 // D = directives + look-alike + instrumented body
@@ -32,7 +33,8 @@ async function build (tier) {
   const L = 3
   const dims = []
   for (let i = 0; i < L; i++) dims.push({ name: 'd' + i, symbols: [''].concat(DIRECTIVES), free: true })
-  dims.push({ name: 'look', symbols: LOOKALIKES, free: true })
+  // (quick: the first five, i.e. one of the forms with something in front of the string)
+  dims.push({ name: 'look', symbols: tier === 'thorough' ? LOOKALIKES : LOOKALIKES.slice(0, 5), free: true })
   dims.push({ name: 'scope', symbols: Object.keys(SCOPES), free: true })
   dims.push({ name: 'body', symbols: Object.keys(BODIES), free: true })
   // a string statement AFTER the first ordinary statement: inert, must stay where it is
